@@ -12,6 +12,8 @@ from ..refs import MeshRef, maxerr
 
 PROPERTY = "C02"
 ENGINE = "E2"
+TECHNIQUE = "bounded-exhaustive enumeration of closed meshes (all manifold voxel solids of small boxes, extrusions, radial perturbations) vs exact mesh integrals"
+LEVEL_TEXT = "All face-connected manifold voxel solids of the listed boxes (including non-star-shaped and genus-1), all ccw lattice extrusions and radially perturbed hulls are executed and compared with exact integrals; inputs are validated exactly as closed oriented meshes first."
 RULE = (
     "cases = closed outward-oriented meshes: VOX voxel solids (incl. non-star-shaped and genus-1), EXT extruded simple lattice "
     "polygons with exactly ear-clipped caps, RAD radially perturbed triangulated lattice hulls (star-shaped), Polyhedron copies "
